@@ -122,6 +122,13 @@ def _items():
     add('Point',
         '#[derive(Debug, Clone, Copy, PartialEq, Eq, PartialOrd, Ord, Hash, Default)]\npub struct Point { pub x: i32, pub y: i32 }\n',
         '#[derive(Debug, Clone, Copy, PartialEq, Eq)]\npub struct Point { pub x: i32, pub y: i32 }\n')
+    # Point with a FromStr whose outcome is chosen by the harness (any deterministic parser)
+    add('PointFromStr',
+        'impl ::core::str::FromStr for Point { type Err = MyErr; fn from_str(s: &str) -> Result<Self, MyErr> { let mut it = s.split(\',\'); let x = it.next().and_then(|v| v.trim().parse().ok()).ok_or(MyErr::Bad)?; let y = it.next().and_then(|v| v.trim().parse().ok()).ok_or(MyErr::Worse)?; Ok(Point { x, y }) } }\n',
+        '',
+        'pub static mut PT_PARSE_OK: bool = true;\npub static mut PT_PARSE_VAL: Point = Point { x: 0, y: 0 };\npub static mut PT_PARSE_ERR: MyErr = MyErr::Bad;\n'
+        'pub static mut PT_CALLS: usize = 0;\npub static mut PT_PTR: usize = 0;\npub static mut PT_LEN: usize = 0;\n'
+        'impl ::core::str::FromStr for Point { type Err = MyErr; fn from_str(s: &str) -> Result<Self, MyErr> { unsafe { PT_CALLS += 1; PT_PTR = s.as_ptr() as usize; PT_LEN = s.len(); if PT_PARSE_OK { Ok(PT_PARSE_VAL) } else { Err(PT_PARSE_ERR) } } } }\n')
     add('san_point',
         'pub fn san_point(p: Point) -> Point { Point { x: p.x.clamp(0, 100), y: p.y.clamp(0, 100) } }\n',
         'pub uninterp spec fn SPEC_SAN_POINT(p: Point) -> Point;\n#[verifier::external_body]\n'
@@ -170,5 +177,5 @@ def render(names, mode):
         if n not in seen:
             seen.append(n)
     # MyErr first, Point first (types before functions)
-    seen.sort(key=lambda n: (0 if n in ('MyErr', 'Point') else 1))
+    seen.sort(key=lambda n: (0 if n in ('MyErr', 'Point') else (1 if n == 'PointFromStr' else 2)))
     return ''.join(ITEMS[n][mode] for n in seen)
